@@ -8,7 +8,7 @@ package runtime
 // shared vocabulary
 
 //@ spec wfVal(v any, t ast.DType) bool = (t == ast.String ==> typeis(v, string)) && (t == ast.List ==> typeis(v, []any))
-//@ | && (t == ast.Map ==> typeis(v, map[string]any)) && (t == ast.Int ==> typeis(v, int64))
+//@ | && (t == ast.Map ==> typeis(v, map[string]any) && v.(map[string]any) != nil) && (t == ast.Int ==> typeis(v, int64))
 //@ | && (t == ast.Float ==> typeis(v, float64)) && (t == ast.Bool ==> typeis(v, bool))
 //@ | && (t == ast.Nil ==> v == nil)
 
@@ -65,6 +65,7 @@ package runtime
 
 //@ extern reflect.TypeOf
 //@ pure
+//@ ensures i != nil ==> result != nil
 
 //@ extern reflect.DeepEqual
 //@ pure
@@ -157,3 +158,378 @@ package runtime
 //@ ensures[C02] op == ast.AND && lhsT == ast.Bool && rhsT == ast.Bool ==> result2 == nil && result0.(bool) == (lhs.(bool) && rhs.(bool))
 //@ ensures[C02] op == ast.OR && lhsT == ast.Bool && rhsT == ast.Bool ==> result2 == nil && result0.(bool) == (lhs.(bool) || rhs.(bool))
 //@ ensures[C02] op != ast.EQEQ && op != ast.NEQ && op != ast.LT && op != ast.LTE && op != ast.GT && op != ast.GTE && op != ast.AND && op != ast.OR ==> result2 != nil
+
+
+// ---------------------------------------------------------------------------
+// C01/C03/C13/C14: task state, scopes, registers, evaluators
+
+//@ sweep[C01] * -*Check -InitCtxForCheck -(*Script).Check -(*Task).GetFuncCheck -(*Task).SetCallRef -(*Task).SetPattern -(*Task).GetPattern -(*Stack).SetPattern -(*Stack).GetPattern
+//@ sweep[C08] *Check InitCtxForCheck (*Script).Check (*Task).GetFuncCheck (*Task).SetCallRef
+//@ sweep[C12] (*Task).SetPattern (*Task).GetPattern (*Stack).SetPattern (*Stack).GetPattern
+
+//@ default nonnil *Task
+//@ default nonnil *Stack
+//@ default nonnil *PlReg
+//@ default nonnil *ast.IfelseStmt
+//@ default nonnil *ast.ForStmt
+//@ default nonnil *ast.ForInStmt
+//@ default nonnil *ast.BreakStmt
+//@ default nonnil *ast.ContinueStmt
+//@ default nonnil *ast.UnaryExpr
+//@ default nonnil *ast.ListLiteral
+//@ default nonnil *ast.MapLiteral
+//@ default nonnil *ast.IndexExpr
+//@ default nonnil *ast.ParenExpr
+//@ default nonnil *ast.InExpr
+//@ default nonnil *ast.ConditionalExpr
+//@ default nonnil *ast.ArithmeticExpr
+//@ default nonnil *ast.AssignmentExpr
+//@ default nonnil *ast.CallExpr
+//@ default nonnil *ast.SliceExpr
+//@ default nonnil *Varb
+
+// what running a statement may write, on objects that existed before the call:
+// the task's flags, registers and scope cursor, variables, list/map contents and
+// the input point.  Never the syntax tree, the script or package-level tables.
+//@ frame taskFrame = ctx.loopBreak, ctx.loopContinue, ctx.procExit, ctx.stackCur, ctx.Regs,
+//@ | Stack.CheckPattern, Stack.Data, maptype(map[string]*Varb), Varb.Value, Varb.DType,
+//@ | maptype(map[string]*grok.GrokPattern),
+//@ | elemsof(any), maptype(map[string]any), pointFrame
+
+//@ frame pointFrame = alltype(input.Point), alltype(input.TFMeta), maptype(map[string]string), maptype(map[string]*input.TFMeta)
+
+//@ spec wfTask(ctx *Task) bool = ctx.stackCur != nil && ctx.stackCur.Data != nil && ctx.input != nil && ctx.Regs.count <= 6
+
+// module-wide type invariants (checked at every creation site in the swept packages,
+// assumed at every use): scope tables never hold a nil variable, function tables never
+// hold a nil function, and a map value travelling inside an `any` is never a nil map.
+//@ typeinv[C01] mapvalues map[string]*Varb nonnil
+//@ typeinv[C01] mapvalues map[string]FuncCall nonnil
+//@ typeinv[C01] box map[string]any nonnil
+
+// the return registers hold well-tagged values
+//@ spec wfRegs(ctx *Task) bool = ctx.Regs.count <= 6 && (forall i in 0..6 :: wfVal(ctx.Regs.r0r5[i], ctx.Regs.regsValDType[i]))
+
+//@ struct Varb
+//@ props C01 C03
+//@ invariant wfVal(self.Value, self.DType)
+
+//@ struct Stack
+//@ props C01 C03
+//@ immutable Before
+//@ ghost depth int = self.Before == nil ? 0 : self.Before.depth + 1 on Before
+//@ invariant self.depth >= 0 && (self.depth > 0 <==> self.Before != nil)
+//@ invariant self.Before != nil ==> self.depth == self.Before.depth + 1
+
+//@ iface Input.Get
+//@ params recv key
+//@ modifies nothing
+//@ ensures result2 == nil ==> wfVal(result0, result1)
+
+//@ iface Signal.ExitSignal
+//@ params recv
+//@ modifies nothing
+
+//@ functype FuncCall
+//@ params ctx expr
+//@ requires ctx != nil && expr != nil && wfTask(ctx)
+//@ modifies taskFrame
+//@ ensures ctx.stackCur == old(ctx.stackCur) && oldsame(Stack.Data)
+//@ ensures wfRegs(ctx)
+
+//@ func (*Task).StackEnterNew
+//@ props C01 C03
+//@ modifies ctx.stackCur
+//@ ensures ctx.stackCur != nil && fresh(ctx.stackCur) && ctx.stackCur.Data != nil
+//@ ensures ctx.stackCur.Before == old(ctx.stackCur)
+//@ ensures ctx.stackCur.depth == (old(ctx.stackCur) == nil ? 0 : old(ctx.stackCur.depth) + 1)
+
+//@ func (*Task).StackExitCur
+//@ props C01 C03
+//@ requires ctx.stackCur != nil
+//@ modifies ctx.stackCur, ctx.stackCur.Data, ctx.stackCur.CheckPattern
+//@ ensures ctx.stackCur == old(ctx.stackCur.Before)
+
+//@ func (*Script).Run
+//@ props C01 C13 C14 C15
+//@ requires data != nil
+//@ requires forall i :: 0 <= i && i < len(fn) ==> fn[i] != nil
+
+//@ func (*Script).RefRun
+//@ props C01 C13 C14
+//@ requires ctx.input != nil
+
+//@ func InitCtx
+//@ props C01 C15
+//@ requires script != nil && ctx.Regs.count <= 6
+//@ modifies all(ctx)
+//@ ensures result == ctx && ctx.input == input && ctx.signal == signal && ctx.funcCall == script.FuncCall
+//@ ensures ctx.stackCur == old(ctx.stackCur) && ctx.stackHeader == old(ctx.stackHeader)
+//@ ensures !ctx.procExit && !ctx.loopBreak && !ctx.loopContinue && ctx.name == script.Name
+//@ ensures ctx.Regs.count == 0
+
+// the task pool only ever holds *Task objects (see PutContext / ctxPool.New)
+//@ extern sync.(*Pool).Get
+//@ modifies nothing
+//@ ensures p == addr(ctxPool) ==> typeis(result, *Task) && result.(*Task) != nil && result.(*Task).Regs.count <= 6
+
+//@ extern sync.(*Pool).Put
+//@ modifies nothing
+
+//@ func GetContext
+//@ props C01 C15
+//@ ensures result != nil && result.stackCur != nil && result.stackCur == result.stackHeader && fresh(result.stackCur)
+//@ ensures result.stackCur.Data != nil && result.stackCur.Before == nil && result.Regs.count <= 6
+
+//@ func PutContext
+//@ props C01 C15
+//@ modifies all(ctx)
+
+//@ func (*Task).GetKeyConv2Str
+//@ props C01 C11
+//@ requires ctx.stackCur != nil && ctx.input != nil
+//@ modifies nothing
+
+//@ func (*Task).StackClear
+//@ props C01
+//@ requires ctx.stackCur != nil
+//@ modifies Stack.CheckPattern, maptype(map[string]*Varb)
+
+//@ func Conv2String
+//@ props C01 C11
+//@ pure
+
+//@ extern encoding/json.Marshal
+//@ pure
+
+//@ functype Opt
+//@ params ctx
+//@ requires ctx != nil
+//@ modifies ctx.private
+
+//@ func (*Task).ProcExit
+//@ props C01 C14
+//@ modifies ctx.procExit
+//@ ensures result == ctx.procExit
+//@ ensures old(ctx.procExit) ==> result
+
+//@ func (*Task).StmtRetrun
+//@ props C01 C14
+//@ modifies ctx.procExit
+//@ ensures result == (ctx.procExit || ctx.loopBreak || ctx.loopContinue)
+//@ ensures old(ctx.procExit) ==> ctx.procExit
+
+//@ func (*Task).SetVarb
+//@ props C01 C03
+//@ requires wfTask(ctx) && wfVal(value, dtype)
+//@ modifies maptype(map[string]*Varb), Varb.Value, Varb.DType
+
+//@ func (*Stack).Set
+//@ props C01 C03
+//@ requires stack.Data != nil && wfVal(value, dType)
+//@ modifies maptype(map[string]*Varb), Varb.Value, Varb.DType
+//@ loop 1
+//@ invariant cur != nil
+
+//@ func (*Stack).Get
+//@ props C01 C03
+//@ pure
+//@ ensures result1 == nil ==> result0 != nil
+//@ loop 1
+//@ invariant cur != nil
+
+//@ func (*Task).GetKey
+//@ props C01 C03
+//@ requires ctx.stackCur != nil && ctx.input != nil
+//@ modifies nothing
+//@ ensures result1 == nil ==> result0 != nil && wfVal(result0.Value, result0.DType)
+
+//@ func (*PlReg).Reset
+//@ props C01 C15
+//@ requires reg.count <= 6
+//@ modifies all(reg)
+//@ ensures reg.count == 0
+//@ loop 1
+//@ invariant reg.count == old(reg.count) && i <= reg.count
+
+//@ func (*PlReg).ReturnAppend
+//@ props C01 C11
+//@ requires reg.count <= 6 && wfVal(val, dtype)
+//@ requires forall i in 0..6 :: wfVal(reg.r0r5[i], reg.regsValDType[i])
+//@ modifies all(reg)
+//@ ensures reg.count <= 6
+//@ ensures forall i in 0..6 :: wfVal(reg.r0r5[i], reg.regsValDType[i])
+
+//@ func NewRunError
+//@ props C01 C17
+//@ pure
+//@ ensures result != nil && fresh(result)
+
+//@ func RunStmt
+//@ props C01
+//@ requires wfTask(ctx)
+//@ modifies taskFrame
+//@ ensures result2 == nil ==> wfVal(result0, result1)
+//@ ensures ctx.stackCur != nil && ctx.stackCur.depth >= old(ctx.stackCur.depth)
+//@ ensures result2 == nil ==> ctx.stackCur == old(ctx.stackCur) && oldsame(Stack.Data)
+//@ ensures ctx.Regs.count <= 6
+
+//@ func RunStmts
+//@ props C01 C03 C13 C14
+//@ requires wfTask(ctx)
+//@ modifies taskFrame
+//@ ensures ctx.stackCur != nil && ctx.stackCur.depth >= old(ctx.stackCur.depth)
+//@ ensures result == nil ==> ctx.stackCur == old(ctx.stackCur) && oldsame(Stack.Data)
+//@ ensures ctx.Regs.count <= 6
+//@ loop 1
+//@ invariant ctx.stackCur == old(ctx.stackCur) && wfTask(ctx) && oldsame(Stack.Data)
+
+//@ func RunIfElseStmt
+//@ like RunStmt
+//@ exits separate
+//@ props C01 C03
+//@ loop 1
+//@ invariant wfTask(ctx) && oldsame(Stack.Data)
+//@ invariant fresh(ctx.stackCur) && ctx.stackCur.Before == old(ctx.stackCur) && ctx.stackCur.depth == old(ctx.stackCur.depth) + 1
+
+//@ func RunForStmt
+//@ like RunStmt
+//@ exits separate
+//@ props C01 C03
+//@ loop 1
+//@ invariant wfTask(ctx) && oldsame(Stack.Data)
+//@ invariant fresh(ctx.stackCur) && ctx.stackCur.Before == old(ctx.stackCur) && ctx.stackCur.depth == old(ctx.stackCur.depth) + 1
+
+//@ func RunForInStmt
+//@ like RunStmt
+//@ exits separate
+//@ props C01 C03
+//@ loop 1
+//@ invariant wfTask(ctx) && oldsame(Stack.Data)
+//@ invariant fresh(ctx.stackCur) && fresh(ctx.stackCur.Before) && ctx.stackCur.Before != nil && ctx.stackCur.Before.Before == old(ctx.stackCur)
+//@ invariant ctx.stackCur.depth == old(ctx.stackCur.depth) + 2 && ctx.stackCur.Before.Data != nil
+//@ loop 2
+//@ invariant wfTask(ctx) && oldsame(Stack.Data)
+//@ invariant fresh(ctx.stackCur) && fresh(ctx.stackCur.Before) && ctx.stackCur.Before != nil && ctx.stackCur.Before.Before == old(ctx.stackCur)
+//@ invariant ctx.stackCur.depth == old(ctx.stackCur.depth) + 2 && ctx.stackCur.Before.Data != nil
+//@ loop 3
+//@ invariant wfTask(ctx) && oldsame(Stack.Data)
+//@ invariant fresh(ctx.stackCur) && fresh(ctx.stackCur.Before) && ctx.stackCur.Before != nil && ctx.stackCur.Before.Before == old(ctx.stackCur)
+//@ invariant ctx.stackCur.depth == old(ctx.stackCur.depth) + 2 && ctx.stackCur.Before.Data != nil
+
+//@ func RunBreakStmt
+//@ like RunStmt
+//@ props C01 C03
+
+//@ func RunContinueStmt
+//@ like RunStmt
+//@ props C01 C03
+
+//@ func RunUnaryExpr
+//@ like RunStmt
+//@ props C01 C02
+//@ intmode bv64
+
+//@ func RunListInitExpr
+//@ like RunStmt
+//@ props C01 C04
+//@ loop 1
+//@ invariant wfTask(ctx) && ctx.stackCur == old(ctx.stackCur) && oldsame(Stack.Data)
+
+//@ func RunMapInitExpr
+//@ like RunStmt
+//@ props C01 C04
+//@ loop 1
+//@ invariant wfTask(ctx) && ctx.stackCur == old(ctx.stackCur) && oldsame(Stack.Data)
+
+//@ func RunIndexExprGet
+//@ like RunStmt
+//@ props C01 C04
+
+//@ func searchListAndMap
+//@ like RunStmt
+//@ props C01 C04
+//@ loop 1
+//@ invariant wfTask(ctx) && ctx.stackCur == old(ctx.stackCur) && oldsame(Stack.Data)
+
+//@ func RunParenExpr
+//@ like RunStmt
+//@ props C01
+
+//@ func RunInExpr
+//@ like RunStmt
+//@ props C01 C02 C04
+
+//@ func RunConditionExpr
+//@ like RunStmt
+//@ props C01 C02
+
+//@ func RunArithmeticExpr
+//@ like RunStmt
+//@ props C01 C02
+
+//@ func runAssignArith
+//@ props C01 C02
+//@ pure
+//@ requires l != nil && r != nil
+//@ requires wfVal(l.Value, l.DType) && wfVal(r.Value, r.DType)
+//@ ensures result2 == nil ==> wfVal(result0, result1)
+
+//@ func RunAssignmentExpr
+//@ like RunStmt
+//@ props C01 C03 C04
+
+//@ func changeListOrMapValue
+//@ like RunStmt
+//@ props C01 C04
+//@ requires wfVal(val, dtype)
+//@ loop 1
+//@ invariant wfTask(ctx) && ctx.stackCur == old(ctx.stackCur) && oldsame(Stack.Data)
+
+//@ func RunCallExpr
+//@ like RunStmt
+//@ props C01 C11
+
+//@ func RunSliceExpr
+//@ like RunStmt
+//@ props C01 C04
+//@ intmode bv64
+
+//@ func forbreak
+//@ props C01 C03
+//@ modifies ctx.loopBreak
+//@ ensures result == old(ctx.loopBreak) && !ctx.loopBreak
+
+//@ func forcontinue
+//@ props C01 C03
+//@ modifies ctx.loopContinue
+//@ ensures !ctx.loopContinue
+
+//@ func condTrue
+//@ props C01 C03
+//@ pure
+
+//@ func (*Stack).Clear
+//@ props C01 C03
+//@ modifies stack.CheckPattern, maptype(map[string]*Varb)
+
+//@ func (*Task).GetFuncCall
+//@ props C01
+//@ pure
+
+//@ func (*PlReg).Count
+//@ props C01
+//@ pure
+//@ ensures result == int(reg.count)
+
+//@ func (*PlReg).Get
+//@ props C01
+//@ pure
+//@ ensures i < 6 ==> result2 == nil && result0 == reg.r0r5[int(i)] && result1 == reg.regsValDType[int(i)]
+
+
+//@ func (*Stack).GetPattern
+//@ props C12
+//@ pure
+//@ loop 1
+//@ invariant cur != nil
